@@ -25,7 +25,7 @@ func runOne(seed uint64, p Params) (*World, *Truth, []byte, *CaptureSpec) {
 	if w.Err != "" {
 		return w, nil, nil, nil
 	}
-	s := DrawCaptureSpec(t, p)
+	s := DrawCaptureSpec(t, p, w)
 	b := WriteCapture(w, s)
 	return w, ComputeTruth(w), b, s
 }
@@ -128,5 +128,158 @@ func TestFragmenter(t *testing.T) {
 		if err != nil || !bytes.Equal(back, ip) {
 			t.Fatalf("mtu %d: reassembly failed: %v", mtu, err)
 		}
+	}
+}
+
+// The IPv6 packet builder: a hand-computed checksum, the checksum self-check
+// (pseudo header + segment sums to zero), the header fields, the extension
+// headers, and the receiving host's parser rejecting a damaged packet.
+func TestIPv6Builder(t *testing.T) {
+	var one, two [16]byte
+	one[15], two[15] = 1, 2
+	// ::1 > ::2, ports 1 > 2, everything else zero, data offset 5: pseudo
+	// header words 1 + 2 + 0x14 (length) + 6 (next header) = 0x1d, segment
+	// words 1 + 2 + 0x5000 = 0x5003, sum 0x5020, checksum ^0x5020 = 0xafdf
+	seg := buildTCP6(one, two, 1, 2, 0, 0, 0, 0, nil, nil)
+	if got := get16(seg[16:]); got != 0xafdf {
+		t.Fatalf("checksum %04x, want afdf", got)
+	}
+	src := [16]byte{0x20, 0x01, 0x0d, 0xb8, 0, 0, 0, 0, 0, 0, 0, 0, 0, 0, 0, 1}
+	dst := [16]byte{0xfe, 0x80, 0, 0, 0, 0, 0, 0, 2, 0x11, 0x22, 0xff, 0xfe, 0x33, 0x44, 0x55}
+	for _, n := range []int{0, 1, 2, 3, 536, 1441, 65000} {
+		payload := make([]byte, n)
+		for i := range payload {
+			payload[i] = byte(i*31 + n)
+		}
+		opts := []byte{1, 1, 8, 10, 1, 2, 3, 4, 5, 6, 7, 8}
+		seg := buildTCP6(src, dst, 40000, 443, 0xfffffff0, 77, FlagACK|FlagPSH, 1000, opts, payload)
+		var ph [40]byte
+		copy(ph[0:], src[:])
+		copy(ph[16:], dst[:])
+		put32(ph[32:], uint32(len(seg)))
+		ph[39] = 6
+		if s := foldSum(onesSum(onesSum(0, ph[:]), seg)); s != 0 {
+			t.Fatalf("payload %d: pseudo header + segment sum to %04x, not zero", n, s)
+		}
+		for _, ek := range []struct {
+			kind  uint8
+			units int
+		}{{0, 0}, {nhHopByHop, 1}, {nhDestOpts, 1}, {nhHopByHop, 3}, {nhDestOpts, 2}} {
+			var ext []byte
+			if ek.units > 0 {
+				ext = extHeader6(nhTCP, ek.units)
+				if len(ext) != 8*ek.units || ext[0] != 6 || int(ext[1]) != ek.units-1 {
+					t.Fatalf("extension header %x", ext)
+				}
+			}
+			ip := buildIPv6(src, dst, 0xb8, 0xabcde, 64, nhTCP, ek.kind, ext, seg)
+			if ip[0] != 0x6b || ip[1] != 0x8a || ip[2] != 0xbc || ip[3] != 0xde {
+				t.Fatalf("version/class/flow %x", ip[:4])
+			}
+			if int(get16(ip[4:])) != len(ext)+len(seg) || len(ip) != 40+len(ext)+len(seg) || ip[7] != 64 {
+				t.Fatalf("payload length %d for %d+%d", get16(ip[4:]), len(ext), len(seg))
+			}
+			if want := uint8(nhTCP); ek.units > 0 && ip[6] != ek.kind || ek.units == 0 && ip[6] != want {
+				t.Fatalf("next header %d", ip[6])
+			}
+			h, s6, err := parseIPv6(ip)
+			if err != nil || h.src != src || h.dst != dst || h.proto != nhTCP || h.tclass != 0xb8 || h.flow != 0xabcde || !bytes.Equal(s6, seg) {
+				t.Fatalf("parse back: %v %+v", err, h)
+			}
+			if (ek.units > 0) != (len(h.extKinds) == 1) {
+				t.Fatalf("extension headers seen: %v", h.extKinds)
+			}
+			th, p, err := parseTCPAddr(addr6(h.src), addr6(h.dst), s6)
+			if err != nil || !bytes.Equal(p, payload) || th.sp != 40000 || th.dp != 443 || th.seq != 0xfffffff0 {
+				t.Fatalf("tcp parse back: %v", err)
+			}
+			// one flipped bit anywhere in addresses or segment is noticed
+			for _, at := range []int{8, 39, 40 + len(ext), len(ip) - 1} {
+				bad := append([]byte(nil), ip...)
+				bad[at] ^= 0x10
+				bh, bs, err := parseIPv6(bad)
+				if err == nil {
+					_, _, err = parseTCPAddr(addr6(bh.src), addr6(bh.dst), bs)
+				}
+				if err == nil {
+					t.Fatalf("payload %d: flipped bit at %d not noticed", n, at)
+				}
+			}
+		}
+		// the IPv4 pseudo header gives another checksum: the two are not mixed up
+		if _, _, err := parseTCP([4]byte{}, [4]byte{}, seg); err == nil {
+			t.Fatal("IPv6 checksum verifies with an IPv4 pseudo header")
+		}
+	}
+}
+
+// IPv6 connections, mixed captures, both single-family link types and both
+// extension headers are reached; single-family link types only hold packets
+// of their family (frame panics otherwise); IPv6 packets are never fragmented.
+func TestIPv6Reach(t *testing.T) {
+	var conn4, conn6, mixed, only6, l228, l229, hbh, dopt, nullV6, mapped int
+	for _, p := range []Params{{}, {Omission: true}, {Snaplen: true}, {NoSYN: true}, {Large: true}, {Wide: true}} {
+		for seed := uint64(1); seed <= 600; seed++ {
+			w, _, b, s := runOne(seed+7000, p)
+			if w.Err != "" {
+				t.Fatalf("params %+v seed %d: %s", p, seed, w.Err)
+			}
+			if len(b) == 0 {
+				t.Fatal("empty capture")
+			}
+			n6 := 0
+			for _, cn := range w.Conns {
+				if cn.V6 {
+					n6++
+					for side := 0; side < 2; side++ {
+						switch cn.Ends[side].ExtKind() {
+						case nhHopByHop:
+							hbh++
+						case nhDestOpts:
+							dopt++
+						}
+						if cn.Ends[side].Addr().V4Mapped() {
+							mapped++
+						}
+					}
+				}
+			}
+			conn6 += n6
+			conn4 += len(w.Conns) - n6
+			if n6 > 0 && n6 < len(w.Conns) {
+				mixed++
+			}
+			if n6 == len(w.Conns) {
+				only6++
+			}
+			for _, l := range s.Links {
+				switch l {
+				case LinkIPv4:
+					l228++
+				case LinkIPv6:
+					l229++
+				case LinkNull:
+					if n6 > 0 {
+						nullV6++
+					}
+				}
+			}
+			for i := range w.Tap {
+				r := &w.Tap[i]
+				if r.V6 != (r.IP[0]>>4 == 6) || (r.V6 && r.NFrag != 1) {
+					t.Fatalf("seed %d: tap record %d: family %v, first byte %02x, %d fragments", seed, i, r.V6, r.IP[0], r.NFrag)
+				}
+			}
+		}
+	}
+	t.Logf("connections v4 %d v6 %d, captures mixed %d all-v6 %d, linktype 228: %d 229: %d, hop-by-hop dirs %d, dest-opts dirs %d, null link with v6 %d, v4-mapped ends %d",
+		conn4, conn6, mixed, only6, l228, l229, hbh, dopt, nullV6, mapped)
+	for name, n := range map[string]int{"v4": conn4, "v6": conn6, "mixed": mixed, "only6": only6, "228": l228, "229": l229, "hbh": hbh, "dopt": dopt, "null6": nullV6} {
+		if n == 0 {
+			t.Errorf("never reached: %s", name)
+		}
+	}
+	if w := Generate(zeroTape{}, Params{}); w.Conns[0].V6 {
+		t.Error("the zero tape should give the simplest world: IPv4")
 	}
 }
